@@ -268,7 +268,20 @@ func runC13(ctx *core.Ctx, out *core.Out) {
 	q.set("Sec-Websocket-Version", []string{"13"}, cValid)
 	q.set("Sec-Websocket-Key", []string{someKey}, cValid)
 	q.set("Origin", origin, cValid)
-	desc := map[string]interface{}{"host": fmt.Sprintf("%q", host), "origin": fmt.Sprintf("%q", origin), "construction": kind, "must_accept": wantAccept, "mode": map[bool]string{true: "real net/http server", false: "direct"}[realMode]}
+	// other headers a browser or an intermediary may add: none of them is part of the policy
+	var extra []string
+	if r.Chance(1, 3) {
+		cands := [][2]string{{"Sec-Fetch-Site", "same-origin"}, {"Sec-Fetch-Site", "cross-site"}, {"Sec-Fetch-Mode", "websocket"}, {"Referer", "http://" + host + "/page"}, {"X-Forwarded-Host", host},
+			{"X-Forwarded-Proto", "https"}, {"Forwarded", "host=" + host}, {"X-Original-Host", host}, {"Access-Control-Request-Headers", "origin"}, {"Cookie", "session=1"}, {"X-Requested-With", "XMLHttpRequest"}}
+		for i, n := 0, r.Range(1, 3); i < n; i++ {
+			c := cands[r.Intn(len(cands))]
+			if _, dup := q.H[c[0]]; !dup && !isExotic(c[1]) {
+				q.set(c[0], []string{c[1]}, cValid)
+				extra = append(extra, c[0]+": "+c[1])
+			}
+		}
+	}
+	desc := map[string]interface{}{"other_headers": extra, "host": fmt.Sprintf("%q", host), "origin": fmt.Sprintf("%q", origin), "construction": kind, "must_accept": wantAccept, "mode": map[bool]string{true: "real net/http server", false: "direct"}[realMode]}
 	out.Eval(fmt.Sprintf("%q|%q", host, origin), origin != nil)
 	var o *hsOutcome
 	if realMode {
